@@ -96,6 +96,7 @@ func init() {
 				if ops["FUZZY"] || ops["BOOST"] {
 					w.Do(core.Case{Kind: "fold", In: core.BStr(txt), In2: "unsupported"})
 					w.Do(core.Case{Kind: "fold", In: core.BStr(txt), In2: "unsupported", DF: "D"})
+					w.Do(core.Case{Kind: "fold", In: core.BStr(txt), In2: "private-map"})
 				}
 			})
 		},
@@ -314,6 +315,43 @@ func c15Eval(c core.Case) (res core.Result) {
 		}
 		if e2 == nil {
 			add("unsupported", "ToParameterizedPostgres-succeeds", fmt.Sprintf("%q", s2), "an error: the query contains a fuzzy or boost operator")
+		}
+		return
+	}
+	if cfg == "private-map" {
+		// a driver obtained from NewPostgresDriver owns its function map: registering functions in
+		// it must not change what another driver, driver.Shared or ToPostgres do
+		var errBefore, errAfter error
+		var sharedBefore, sharedAfter int
+		if pi := core.Safe(func() {
+			_, errBefore = lucene.ToPostgres(string(c.In))
+			sharedBefore = len(driver.Shared)
+			d := driver.NewPostgresDriver()
+			ident := func(l, r string) (string, error) { return l, nil }
+			_, hadF := d.RenderFNs[expr.Fuzzy]
+			_, hadB := d.RenderFNs[expr.Boost]
+			d.RenderFNs[expr.Fuzzy] = ident
+			d.RenderFNs[expr.Boost] = ident
+			_, errAfter = lucene.ToPostgres(string(c.In))
+			sharedAfter = len(driver.Shared)
+			// undo, so that a leak (if any) does not poison the cases that follow
+			if !hadF {
+				delete(d.RenderFNs, expr.Fuzzy)
+			}
+			if !hadB {
+				delete(d.RenderFNs, expr.Boost)
+			}
+		}); pi != nil {
+			res.Tags = append(res.Tags, "skipped_upstream_panic")
+			return
+		}
+		res.Nontrivial = true
+		res.Hash = core.Hash64("private-map", fmt.Sprint(errBefore))
+		if errBefore != nil && errAfter == nil {
+			add("unsupported", "leaks-from-another-driver", "ToPostgres succeeds after Fuzzy/Boost were registered in a different driver's map", "still an error: "+errBefore.Error())
+		}
+		if sharedAfter != sharedBefore {
+			add("unsupported", "shared-table-modified", fmt.Sprintf("driver.Shared has %d entries after registering functions in a driver's own map (was %d)", sharedAfter, sharedBefore), "driver.Shared unchanged")
 		}
 		return
 	}
